@@ -154,11 +154,13 @@ def c06(tier):
     return [P("dn3", "dn", 3, walk=False, workers=16), P("dn2", "dn", 2, reps=4), P("un3", "un", 3, reps=4),
             P("dn5s", "dn", 5, ops=["addEdge", "removeEdge"], initn=5, constraints=["SingleSource"], reps=1, workers=8),
             P("un5s", "un", 5, ops=["addEdge", "removeEdge"], initn=5, constraints=["SingleSource"], walk=False, workers=8),
-            P("dl2", "dl", 2, labels=(0, 1, 2), reps=2), P("ul3", "ul", 3, labels=(0, 1), walk=False, workers=16),
-            P("ul2", "ul", 2, labels=(0, 1, 2), reps=3),
-            P("dm2", "dm", 2, mults=(0, 1, 2, 3), maxmult=3, reps=3), P("um2", "um", 2, mults=(0, 1, 2, 3), maxmult=3, reps=3),
+            P("dl2", "dl", 2, labels=(0, 1), reps=2), P("dl2x", "dl", 2, labels=(0, 1, 2), walk=False, workers=16),
+            P("ul3", "ul", 3, labels=(0, 1), walk=False, workers=16), P("ul2", "ul", 2, labels=(0, 1, 2), reps=2),
+            P("dm2", "dm", 2, mults=(0, 1, 2), maxmult=2, reps=2), P("dm2x", "dm", 2, mults=(0, 1, 2, 3), maxmult=3, walk=False, workers=16),
+            P("um2", "um", 2, mults=(0, 1, 2, 3), maxmult=3, reps=3),
             P("um3", "um", 3, mults=(0, 1), maxmult=1, walk=False, workers=16),
-            P("dw2", "dw", 2, weights="WeightSet3", reps=3), P("uw2", "uw", 2, weights="WeightSet3", reps=3),
+            P("dw2", "dw", 2, reps=2), P("dw2x", "dw", 2, weights="WeightSet3", walk=False, workers=16),
+            P("uw2", "uw", 2, weights="WeightSet3", reps=3),
             P("uw3", "uw", 3, weights="WeightSetH", walk=False, workers=16)]
 
 
